@@ -21,6 +21,8 @@ THEOREMS = [
     "PyTrie.Props.C10.nodes_loop_is_preorder",
     "PyTrie.Props.C10.raw_nodes_loop_refines",
     "PyTrie.Props.C10.raw_nodes_is_preorder",
+    "PyTrie.Props.C10.raw_nodes_loop_partial",
+    "PyTrie.Props.C10.raw_nodes_partial",
     "PyTrie.Props.Raw.next_key_refines",
     "PyTrie.Props.Raw.key_after_refines",
     "PyTrie.Props.NonVacuity2.next_key_witness",
